@@ -3,10 +3,13 @@
 //! all judging is done by TLC.
 
 mod mock;
+mod names;
 mod cmds;
 mod codec;
 mod filt;
+mod frame;
 mod session;
+mod typed;
 mod wire;
 
 use std::sync::atomic::{AtomicUsize, Ordering};
@@ -34,6 +37,9 @@ fn main() {
         "codec" => codec::main(rest),
         "filter" => filt::main(rest),
         "cmds" => cmds::main(rest),
+        "frame" => frame::main(rest),
+        "names" => names::main(rest),
+        "typed" => typed::main(rest),
         other => {
             eprintln!("unknown subcommand {other}");
             2
